@@ -892,6 +892,7 @@ type monCtx struct {
 	replay []string
 	// names seen in this case, by lower-cased form; caseVariant is set once two spellings of one name met
 	spell       map[string]string
+	variants    map[string]bool // lower-cased names met in two spellings
 	caseVariant bool
 	// idMoved: the update being checked hands the UUID of a stored node to another node while the
 	// previous holder is itself part of the snapshot (history shape of one known finding)
@@ -901,10 +902,12 @@ type monCtx struct {
 func (m *monCtx) note(names ...string) {
 	if m.spell == nil {
 		m.spell = map[string]string{}
+		m.variants = map[string]bool{}
 	}
 	for _, n := range names {
 		if o, ok := m.spell[lc(n)]; ok && o != n {
 			m.caseVariant = true
+			m.variants[lc(n)] = true
 		}
 		m.spell[lc(n)] = n
 	}
@@ -931,18 +934,39 @@ func report(run *hx.Run, sig, desc string, replay []string) {
 	}
 }
 
-func (m *monCtx) violate(sig, desc string) {
-	if m.caseVariant {
-		// one history shape, whatever monitor notices it: the importer keys its Go maps by exact spelling,
-		// the state store by lower-cased names
+// explained: signatures whose classifier has verified the history shape of one known mechanism
+var explained = map[string]bool{
+	"import:stale-node-check:instance-id-replaced":                        true,
+	"import:stale-node-check:node-new-to-service":                         true,
+	"import:stale-service-check:instance-id-taken-from-other-service":     true,
+	"import:check-id-moved-between-instances":                             true,
+}
+
+func (m *monCtx) hasVariant(names ...string) bool {
+	for _, n := range names {
+		if m.variants[lc(n)] {
+			return true
+		}
+	}
+	return false
+}
+
+// violate reports a monitor failure. A signature names a mechanism only when the classifier has checked the
+// history shape of that mechanism; otherwise the generic signature of the monitor is kept (a VIOLATION).
+// names: the node / service / id names the observed difference is about.
+func (m *monCtx) violate(sig, desc string, names ...string) {
+	switch {
+	case explained[sig]:
+	case m.idMoved && (sig == "import:received-instance-missing" || sig == "import:received-check-missing" ||
+		sig == "import:node-left-without-instances"):
+		// the update hands the UUID of a stored node to another node while the previous holder is in the snapshot too
+		desc = "[" + sig + "] " + desc
+		sig = "import:node-id-moved-between-snapshot-nodes"
+	case m.hasVariant(names...):
+		// the difference is about a name that was met in two spellings differing only in case: the importer keys its
+		// Go maps by exact spelling, the state store by lower-cased names
 		desc = "[" + sig + "] " + desc
 		sig = "import:names-differing-only-in-case"
-	} else if m.idMoved {
-		switch sig {
-		case "import:received-instance-missing", "import:received-check-missing", "import:node-left-without-instances":
-			desc = "[" + sig + "] " + desc
-			sig = "import:node-id-moved-between-snapshot-nodes"
-		}
 	}
 	report(m.run, sig, desc, m.replay)
 }
@@ -977,10 +1001,10 @@ func dedup(s []string) []string {
 }
 
 // after a successful upsert of a well-formed snapshot the catalog view of (peer, service) IS the snapshot
-func (m *monCtx) monExact(p, name string, is []inst, before []csnView) {
+func (m *monCtx) monExact(p, name string, is []inst, before []csnView, svcsBefore map[string]pRow) {
 	after, st := m.w.csn(p, name)
 	if strings.HasPrefix(st, "err:") {
-		m.violate("import:view-unreadable-after-update", "CheckServiceNodes fails after the import: "+st)
+		m.violate("import:view-unreadable-after-update", "CheckServiceNodes fails after the import: "+st, name)
 		return
 	}
 	want := map[string]inst{}
@@ -991,12 +1015,17 @@ func (m *monCtx) monExact(p, name string, is []inst, before []csnView) {
 	for _, v := range after {
 		got[v.node.name+"\x00"+v.svc.sid] = v
 	}
-	hadNode := map[string]bool{}      // node carried an instance of this service before the update
-	hadInst := map[string]bool{}      // (node, id) was an instance of this service before the update
-	chkOwner := map[string]string{}   // node/check id -> service id it was attached to in the view before
+	hadNode := map[string]bool{}    // node carried an instance of this service before the update
+	keptOnNode := map[string]bool{} // ... and one of those instances is still in the snapshot under the same id
+	hadInst := map[string]bool{}    // (node, id) was an instance of this service before the update
+	chkOwner := map[string]string{} // node/check id -> service id it was attached to in the view before
 	for _, v := range before {
 		hadNode[v.node.name] = true
-		hadInst[v.node.name+"\x00"+v.svc.sid] = true
+		k := v.node.name + "\x00" + v.svc.sid
+		hadInst[k] = true
+		if _, ok := want[k]; ok {
+			keptOnNode[v.node.name] = true
+		}
 		for _, c := range v.chks {
 			chkOwner[v.node.name+"\x00"+c.cid] = c.sid
 		}
@@ -1004,7 +1033,7 @@ func (m *monCtx) monExact(p, name string, is []inst, before []csnView) {
 	for k, i := range want {
 		v, ok := got[k]
 		if !ok {
-			m.violate("import:received-instance-missing", fmt.Sprintf("peer %s service %s: instance %s/%s of the snapshot is not in the catalog", p, name, i.node.name, i.svc.sid))
+			m.violate("import:received-instance-missing", fmt.Sprintf("peer %s service %s: instance %s/%s of the snapshot is not in the catalog", p, name, i.node.name, i.svc.sid), name, i.node.name, i.svc.sid)
 			continue
 		}
 		g := inst{v.node, v.svc, v.chks}
@@ -1012,10 +1041,10 @@ func (m *monCtx) monExact(p, name string, is []inst, before []csnView) {
 			continue
 		}
 		if v.node != i.node {
-			m.violate("import:node-differs-from-snapshot", fmt.Sprintf("peer %s service %s: node %+v, snapshot has %+v", p, name, v.node, i.node))
+			m.violate("import:node-differs-from-snapshot", fmt.Sprintf("peer %s service %s: node %+v, snapshot has %+v", p, name, v.node, i.node), name, i.node.name)
 		}
 		if v.svc != i.svc {
-			m.violate("import:instance-differs-from-snapshot", fmt.Sprintf("peer %s service %s: instance %+v, snapshot has %+v", p, name, v.svc, i.svc))
+			m.violate("import:instance-differs-from-snapshot", fmt.Sprintf("peer %s service %s: instance %+v, snapshot has %+v", p, name, v.svc, i.svc), name, i.node.name, i.svc.sid)
 		}
 		wantK := map[string]chkDef{}
 		for _, c := range i.chks {
@@ -1027,34 +1056,41 @@ func (m *monCtx) monExact(p, name string, is []inst, before []csnView) {
 		}
 		for cid, c := range wantK {
 			if g, ok := gotK[cid]; !ok {
-				if o, was := chkOwner[i.node.name+"\x00"+cid]; was && o != c.sid && o != "" {
+				if o, was := chkOwner[i.node.name+"\x00"+cid]; was && o != c.sid && o != "" && c.sid != "" {
+					// shape: the check id hung on another instance of this service on this node before
 					m.violate("import:check-id-moved-between-instances", fmt.Sprintf("peer %s service %s: check %s on %s moved from instance %s to %s in the snapshot and is deleted", p, name, cid, i.node.name, o, c.sid))
 					continue
 				}
-				m.violate("import:received-check-missing", fmt.Sprintf("peer %s service %s: check %s on %s of the snapshot is not in the catalog", p, name, cid, i.node.name))
+				m.violate("import:received-check-missing", fmt.Sprintf("peer %s service %s: check %s on %s of the snapshot is not in the catalog", p, name, cid, i.node.name), name, i.node.name, i.svc.sid, cid)
 			} else if g != c {
-				m.violate("import:check-differs-from-snapshot", fmt.Sprintf("peer %s service %s: check %+v, snapshot has %+v", p, name, g, c))
+				m.violate("import:check-differs-from-snapshot", fmt.Sprintf("peer %s service %s: check %+v, snapshot has %+v", p, name, g, c), name, i.node.name, i.svc.sid, cid)
 			}
 		}
 		for cid, c := range gotK {
 			if _, ok := wantK[cid]; ok {
 				continue
 			}
+			prev, held := svcsBefore[lc(i.node.name)+"\x00"+lc(i.svc.sid)]
 			switch {
 			case c.sid == "" && !hadNode[i.node.name]:
+				// shape: no stored instance of this service on the node, so nothing shows its node checks to the clean-up
 				m.violate("import:stale-node-check:node-new-to-service", fmt.Sprintf("peer %s service %s: node check %s on %s is absent from the snapshot but stays (the node carried no instance of the service before)", p, name, cid, i.node.name))
-			case c.sid == "":
+			case c.sid == "" && !keptOnNode[i.node.name]:
+				// shape: every stored instance of this service on the node has an id the snapshot no longer lists
 				m.violate("import:stale-node-check:instance-id-replaced", fmt.Sprintf("peer %s service %s: node check %s on %s is absent from the snapshot but stays (the stored instance on the node had another id)", p, name, cid, i.node.name))
-			case !hadInst[k]:
-				m.violate("import:stale-service-check:instance-id-taken-from-other-service", fmt.Sprintf("peer %s service %s: service check %s on %s/%s is absent from the snapshot but stays (the instance id belonged to another service of the peer before)", p, name, cid, i.node.name, i.svc.sid))
+			case c.sid == "":
+				m.violate("import:stale-node-check", fmt.Sprintf("peer %s service %s: node check %s on %s is absent from the snapshot but stays although a stored instance of the service on that node is still listed", p, name, cid, i.node.name), name, i.node.name, cid)
+			case !hadInst[k] && held && lc(prev.sname) != lc(name):
+				// shape: the (node, id) was an instance of another service of the peer before
+				m.violate("import:stale-service-check:instance-id-taken-from-other-service", fmt.Sprintf("peer %s service %s: service check %s on %s/%s is absent from the snapshot but stays (the instance id belonged to service %s before)", p, name, cid, i.node.name, i.svc.sid, prev.sname))
 			default:
-				m.violate("import:stale-service-check", fmt.Sprintf("peer %s service %s: service check %s on %s is absent from the snapshot but stays", p, name, cid, i.node.name))
+				m.violate("import:stale-service-check", fmt.Sprintf("peer %s service %s: service check %s on %s is absent from the snapshot but stays", p, name, cid, i.node.name), name, i.node.name, i.svc.sid, cid)
 			}
 		}
 	}
 	for k, v := range got {
 		if _, ok := want[k]; !ok {
-			m.violate("import:absent-instance-not-removed", fmt.Sprintf("peer %s service %s: instance %s/%s is not in the snapshot but stays in the catalog", p, name, v.node.name, v.svc.sid))
+			m.violate("import:absent-instance-not-removed", fmt.Sprintf("peer %s service %s: instance %s/%s is not in the snapshot but stays in the catalog", p, name, v.node.name, v.svc.sid), name, v.node.name, v.svc.sid)
 		}
 	}
 }
@@ -1107,16 +1143,23 @@ func (m *monCtx) peerState(p string) (nodes map[string]bool, svcs map[string]pRo
 }
 
 // a node of the peer disappears only when no instance is left on it, and no node is left without instances
-func (m *monCtx) monNodes(p string, nodesBefore map[string]bool, svcsOnBefore map[string]int) {
+func (m *monCtx) monNodes(p string, nodesBefore map[string]bool, svcsOnBefore map[string]int, svcsBefore map[string]pRow) {
 	nodes, _, on := m.peerState(p)
 	for n := range nodes {
 		if on[n] == 0 && (svcsOnBefore[n] > 0 || !nodesBefore[n]) {
-			m.violate("import:node-left-without-instances", fmt.Sprintf("peer %s: node %s is in the catalog but carries no service instance any more", p, n))
+			// the difference is about the node and about the instances it carried before
+			names := []string{n}
+			for _, s := range svcsBefore {
+				if lc(s.node) == n {
+					names = append(names, s.sid, s.sname)
+				}
+			}
+			m.violate("import:node-left-without-instances", fmt.Sprintf("peer %s: node %s is in the catalog but carries no service instance any more", p, n), names...)
 		}
 	}
 	for n, k := range on {
 		if k > 0 && !nodes[n] {
-			m.violate("import:instance-without-node", fmt.Sprintf("peer %s: %d instance(s) on node %s which is not in the catalog", p, k, n))
+			m.violate("import:instance-without-node", fmt.Sprintf("peer %s: %d instance(s) on node %s which is not in the catalog", p, k, n), n)
 		}
 	}
 }
@@ -1138,9 +1181,9 @@ func (m *monCtx) monOther(p, name string, is []inst, svcsBefore map[string]pRow,
 			continue
 		}
 		if a, ok := after[k]; !ok {
-			m.violate("import:other-service-instance-removed", fmt.Sprintf("peer %s: the update of %s removed instance %s/%s of service %s", p, name, s.node, s.sid, s.sname))
+			m.violate("import:other-service-instance-removed", fmt.Sprintf("peer %s: the update of %s removed instance %s/%s of service %s", p, name, s.node, s.sid, s.sname), name, s.sname, s.node, s.sid)
 		} else if a != s {
-			m.violate("import:other-service-instance-changed", fmt.Sprintf("peer %s: the update of %s changed instance %s/%s of service %s: %+v -> %+v", p, name, s.node, s.sid, s.sname, s, a))
+			m.violate("import:other-service-instance-changed", fmt.Sprintf("peer %s: the update of %s changed instance %s/%s of service %s: %+v -> %+v", p, name, s.node, s.sid, s.sname, s, a), name, s.sname, s.node, s.sid)
 		}
 	}
 }
@@ -1155,13 +1198,13 @@ func (m *monCtx) monList(p string, names []string, svcsBefore map[string]pRow) {
 	_, after, _ := m.peerState(p)
 	for _, s := range after {
 		if !keep[s.sname] {
-			m.violate("import:unexported-service-remains", fmt.Sprintf("peer %s: service %s (instance %s/%s) is not in the exported list %v but remains", p, s.sname, s.node, s.sid, names))
+			m.violate("import:unexported-service-remains", fmt.Sprintf("peer %s: service %s (instance %s/%s) is not in the exported list %v but remains", p, s.sname, s.node, s.sid, names), s.sname)
 		}
 	}
 	for k, s := range svcsBefore {
 		if keep[s.sname] {
 			if a, ok := after[k]; !ok || a != s {
-				m.violate("import:listed-service-damaged", fmt.Sprintf("peer %s: instance %s/%s of listed service %s was removed or changed by the list update %v", p, s.node, s.sid, s.sname, names))
+				m.violate("import:listed-service-damaged", fmt.Sprintf("peer %s: instance %s/%s of listed service %s was removed or changed by the list update %v", p, s.node, s.sid, s.sname, names), s.sname, s.node, s.sid)
 			}
 		}
 	}
@@ -1325,26 +1368,109 @@ func shapeTags(run *hx.Run, w *world, p, name string, is []inst) {
 	}
 }
 
-func runImportCase(run *hx.Run, r *hx.RNG, cfg caseCfg) {
+// session: one importing cluster fed message by message, every message followed by dump + monitors
+type session struct {
+	run        *hx.Run
+	w          *world
+	mon        *monCtx
+	hist       []string
+	compare    bool // emit op lines for the model (false: names outside the model's domain, monitors only)
+	nontrivial bool
+}
+
+func newSession(run *hx.Run, compare bool) *session {
 	w := newWorld()
+	se := &session{run: run, w: w, mon: &monCtx{run: run, w: w}, compare: compare}
+	se.emit("reset", "ok")
+	return se
+}
+
+func (se *session) emit(op, out string) {
+	if se.compare {
+		se.run.Line(op, out)
+	}
+	se.hist = append(se.hist, op)
+}
+
+func (se *session) list(p string, names []string) result {
+	run, w, mon := se.run, se.w, se.mon
+	othersBefore := w.others(p)
+	nodesB, svcsB, onB := mon.peerState(p)
+	mon.note(names...)
+	res := w.sendList(p, names)
+	se.emit(fmt.Sprintf("list %s %s", hx.EncS(p), hx.EncSList(names)), resLine(res))
+	se.emit("dump", w.dump())
+	mon.replay = se.hist
+	mon.monCalls(p, res.calls)
+	if res.status == "ok" {
+		mon.monList(p, names, svcsB)
+		mon.monNodes(p, nodesB, onB, svcsB)
+	}
+	if after := w.others(p); after != othersBefore {
+		mon.violate("import:foreign-rows-modified:list", fmt.Sprintf("a list update for peer %s changed rows of another peer or local rows:\n-- before\n%s\n-- after\n%s", p, othersBefore, after))
+	}
+	run.Tag("msg:list")
+	run.Tag("result:" + res.status)
+	if len(res.calls) > 0 {
+		se.nontrivial = true
+		run.Tag("list:pruned-something")
+	}
+	return res
+}
+
+func (se *session) upd(p, name string, is []inst, kind string) result {
+	run, w, mon := se.run, se.w, se.mon
+	othersBefore := w.others(p)
+	nodesB, svcsB, onB := mon.peerState(p)
+	idsB := mon.nodeIDs(p)
+	wf := wellFormed(name, is)
+	shapeTags(run, w, p, name, is)
+	before, _ := w.csn(p, name)
+	mon.note(name)
+	mon.noteInsts(is)
+	res := w.sendService(p, name, is)
+	ordered := orderByCalls(is, res.calls)
+	se.emit(fmt.Sprintf("upd %s %s %s", hx.EncS(p), hx.EncS(name), encInsts(ordered)), resLine(res))
+	se.emit("dump", w.dump())
+	_, cs := w.csn(p, name)
+	se.emit(fmt.Sprintf("csn %s %s", hx.EncS(p), hx.EncS(name)), cs)
+	mon.replay = se.hist
+	mon.monCalls(p, res.calls)
+	if after := w.others(p); after != othersBefore {
+		mon.violate("import:foreign-rows-modified:update", fmt.Sprintf("an update of %s for peer %s changed rows of another peer or local rows:\n-- before\n%s\n-- after\n%s", name, p, othersBefore, after))
+	}
+	mon.idMoved = idMoved(idsB, is)
+	if res.status == "ok" && wf {
+		mon.monExact(p, name, is, before, svcsB)
+		mon.monNodes(p, nodesB, onB, svcsB)
+		mon.monOther(p, name, is, svcsB, idsB)
+	}
+	mon.idMoved = false
+	run.Tag("msg:upd-" + kind)
+	run.Tag("result:" + res.status)
+	if !wf {
+		run.Tag("snap:not-well-formed")
+	}
+	for _, c := range res.calls {
+		run.Tag("cmd:" + strings.SplitN(c.enc, ";", 2)[0])
+		se.nontrivial = true
+	}
+	if len(res.calls) == 0 && len(is) > 0 {
+		run.Tag("upd:nothing-to-do")
+	}
+	return res
+}
+
+func runImportCase(run *hx.Run, r *hx.RNG, cfg caseCfg) {
 	u := mkUniverse(cfg.caseMode)
 	p := hx.Pick(r, []string{"p1", "p1", "p1", "p2"})
-	var hist []string
-	compare := !cfg.caseMode // names differing only in case: monitors only (outside the model's domain)
-	emit := func(op, out string) {
-		if compare {
-			run.Line(op, out)
-		}
-		hist = append(hist, op)
-	}
-	mon := &monCtx{run: run, w: w}
-	emit("reset", "ok")
-	hist = append(hist, genPrior(r, run, w, u, p, cfg.ids, compare, mon)...)
+	// names differing only in case: monitors only (outside the model's domain)
+	se := newSession(run, !cfg.caseMode)
+	se.hist = append(se.hist, genPrior(r, run, se.w, u, p, cfg.ids, se.compare, se.mon)...)
 	x := &exporter{u: u, ids: cfg.ids}
 	for k := 2 + r.Intn(4); k > 0; k-- {
 		x.addInst(r, hx.Pick(r, u.svcs))
 	}
-	nontrivial := false
 	nmsg := 3 + r.Intn(6)
 	for k := 0; k < nmsg; k++ {
 		for j := r.Intn(4); j > 0; j-- {
@@ -1352,9 +1478,6 @@ func runImportCase(run *hx.Run, r *hx.RNG, cfg caseCfg) {
 				run.Tag("exporter:" + t)
 			}
 		}
-		othersBefore := w.others(p)
-		nodesB, svcsB, onB := mon.peerState(p)
-		idsB := mon.nodeIDs(p)
 		if r.Chance(18) {
 			// exported-service list
 			names := x.names()
@@ -1367,26 +1490,7 @@ func runImportCase(run *hx.Run, r *hx.RNG, cfg caseCfg) {
 				names = nil
 				run.Tag("list:empty")
 			}
-			mon.note(names...)
-			res := w.sendList(p, names)
-			op := fmt.Sprintf("list %s %s", hx.EncS(p), hx.EncSList(names))
-			emit(op, resLine(res))
-			emit("dump", w.dump())
-			mon.replay = hist
-			mon.monCalls(p, res.calls)
-			if res.status == "ok" {
-				mon.monList(p, names, svcsB)
-				mon.monNodes(p, nodesB, onB)
-			}
-			if after := w.others(p); after != othersBefore {
-				mon.violate("import:foreign-rows-modified:list", fmt.Sprintf("a list update for peer %s changed rows of another peer or local rows:\n-- before\n%s\n-- after\n%s", p, othersBefore, after))
-			}
-			run.Tag("msg:list")
-			run.Tag("result:" + res.status)
-			if len(res.calls) > 0 {
-				nontrivial = true
-				run.Tag("list:pruned-something")
-			}
+			se.list(p, names)
 			continue
 		}
 		name := hx.Pick(r, u.svcs)
@@ -1403,53 +1507,68 @@ func runImportCase(run *hx.Run, r *hx.RNG, cfg caseCfg) {
 			is = x.snapshot(name, cfg.flatten)
 		}
 		hx.Shuffle(r, is)
-		wf := wellFormed(name, is)
-		shapeTags(run, w, p, name, is)
-		before, _ := w.csn(p, name)
-		mon.note(name)
-		mon.noteInsts(is)
-		res := w.sendService(p, name, is)
-		ordered := orderByCalls(is, res.calls)
-		op := fmt.Sprintf("upd %s %s %s", hx.EncS(p), hx.EncS(name), encInsts(ordered))
-		emit(op, resLine(res))
-		emit("dump", w.dump())
-		_, cs := w.csn(p, name)
-		emit(fmt.Sprintf("csn %s %s", hx.EncS(p), hx.EncS(name)), cs)
-		mon.replay = hist
-		mon.monCalls(p, res.calls)
-		if after := w.others(p); after != othersBefore {
-			mon.violate("import:foreign-rows-modified:update", fmt.Sprintf("an update of %s for peer %s changed rows of another peer or local rows:\n-- before\n%s\n-- after\n%s", name, p, othersBefore, after))
-		}
-		mon.idMoved = idMoved(idsB, is)
-		if res.status == "ok" && wf {
-			mon.monExact(p, name, is, before)
-			mon.monNodes(p, nodesB, onB)
-			mon.monOther(p, name, is, svcsB, idsB)
-		}
-		mon.idMoved = false
-		run.Tag("msg:upd-" + kind)
-		run.Tag("result:" + res.status)
-		if !wf {
-			run.Tag("snap:not-well-formed")
-		}
-		for _, c := range res.calls {
-			run.Tag("cmd:" + strings.SplitN(c.enc, ";", 2)[0])
-			nontrivial = true
-		}
-		if len(res.calls) == 0 && len(is) > 0 {
-			run.Tag("upd:nothing-to-do")
-		}
+		se.upd(p, name, is, kind)
 	}
 	mode := fmt.Sprintf("mode:case=%v,ids=%v,flatten=%v,arbitrary=%v", cfg.caseMode, cfg.ids, cfg.flatten, cfg.arbitrary)
 	run.Tag(mode)
 	if cfg.caseMode {
 		run.Tag("stream:case-variant-names(monitors-only)")
-		if mon.caseVariant {
+		if se.mon.caseVariant {
 			run.Tag("stream:case-variant-collision-met")
 		}
 	}
-	run.Case(strings.Join(hist, "\n"), nontrivial)
-	run.Sample(map[string]any{"ops": hist[:min(len(hist), 12)]})
+	run.Case(strings.Join(se.hist, "\n"), se.nontrivial)
+	run.Sample(map[string]any{"ops": se.hist[:min(len(se.hist), 12)]})
+}
+
+// ---------------------------------------------------------------- corpus: one fixed witness per known finding
+// (replayed first on every run, through the same machinery and monitors as the generated histories)
+
+func mkInst(node, id, addr, sid, sname string, port int, chks ...chkDef) inst {
+	return inst{node: nodeDef{node, id, addr}, svc: svcDef{sid, sname, port}, chks: chks}
+}
+
+func runCorpus(run *hx.Run) {
+	const u1, u2 = "11111111-1111-1111-1111-111111111111", "22222222-2222-2222-2222-222222222222"
+	nc := func(node, cid, st string) chkDef { return chkDef{node, cid, "", "", st} }
+	sc := func(node, cid, sid, sname, st string) chkDef { return chkDef{node, cid, sid, sname, st} }
+	type step struct {
+		name string
+		is   []inst
+	}
+	cases := []struct {
+		tag     string
+		compare bool
+		steps   []step
+	}{
+		{"stale-node-check:instance-id-replaced", true, []step{
+			{"web", []inst{mkInst("n1", "", "10.0.0.1", "web1", "web", 80, nc("n1", "nc1", "passing"))}},
+			{"web", []inst{mkInst("n1", "", "10.0.0.1", "web2", "web", 80)}}}},
+		{"stale-node-check:node-new-to-service", true, []step{
+			{"api", []inst{mkInst("n1", "", "10.0.0.1", "api1", "api", 80, nc("n1", "nc1", "critical"))}},
+			{"web", []inst{mkInst("n1", "", "10.0.0.1", "web1", "web", 80)}}}},
+		{"stale-service-check:instance-id-taken-from-other-service", true, []step{
+			{"api", []inst{mkInst("n1", "", "10.0.0.1", "s1", "api", 80, sc("n1", "s1:overall-check", "s1", "api", "critical"))}},
+			{"web", []inst{mkInst("n1", "", "10.0.0.1", "s1", "web", 80)}}}},
+		{"check-id-moved-between-instances", true, []step{
+			{"web", []inst{mkInst("n1", "", "10.0.0.1", "a", "web", 80, sc("n1", "c1", "a", "web", "passing")), mkInst("n1", "", "10.0.0.1", "b", "web", 80)}},
+			{"web", []inst{mkInst("n1", "", "10.0.0.1", "a", "web", 80), mkInst("n1", "", "10.0.0.1", "b", "web", 80, sc("n1", "c1", "b", "web", "passing"))}}}},
+		// the two nodes swap their UUIDs: whichever the map iteration visits first renames the other one away
+		{"node-id-moved-between-snapshot-nodes", true, []step{
+			{"web", []inst{mkInst("n2", u2, "10.0.0.2", "i2", "web", 80), mkInst("n3", u1, "10.0.0.3", "i3", "web", 80)}},
+			{"web", []inst{mkInst("n2", u1, "10.0.0.2", "i2", "web", 80), mkInst("n3", u2, "10.0.0.3", "i3", "web", 80)}}}},
+		{"names-differing-only-in-case", false, []step{
+			{"web", []inst{mkInst("n1", "", "10.0.0.1", "web1", "web", 80)}},
+			{"web", []inst{mkInst("N1", "", "10.0.0.1", "web1", "web", 80)}}}},
+	}
+	for _, c := range cases {
+		se := newSession(run, c.compare)
+		for _, st := range c.steps {
+			se.upd("p1", st.name, st.is, "corpus")
+		}
+		run.Tag("corpus:" + c.tag)
+		run.Case(strings.Join(se.hist, "\n"), true)
+	}
 }
 
 // ---------------------------------------------------------------- malformed / protocol-level stream
@@ -1739,6 +1858,7 @@ func runExportCase(run *hx.Run, r *hx.RNG) {
 func main() {
 	run := hx.Start()
 	run.Rule = "one case = a fresh importing cluster (real FSM + state store + peerstream.Server), a random prior catalog (local, other peers, earlier imports) and 3-8 replication messages taken from a mutating simulated exporter (or arbitrary snapshots), each followed by a full catalog dump; or one exported-services configuration queried for 3 peers; distinct by the full op history; non-trivial = at least one catalog command was issued / at least one export entry exists"
+	runCorpus(run)
 	n := run.Scale(260, 2600)
 	for i := 0; i < n; i++ {
 		r := run.RNG.Fork(uint64(i))
